@@ -111,6 +111,41 @@ def check_shape(shape, st: Stats, plan):
                                 report(f"C18/vsl-infinite-vs-plain/{'empty' if not vs else 'set'}/{eng}",
                                        f"{sv.short()}: link L{i} with VSL set {vs} and infinite limits vs plain link: {msg} at {vl}", case)
                                 break
+                    # A': (i) a simulation loop that passes the SAME caller arrays to two consecutive NumPy steps, and
+                    # (ii) a single positivity-init option on sign-flipped values: still exactly the plain link
+                    from ..harness import np_inputs, read_next, to_lists
+                    from ..spec import build as _build
+                    for vl, v in pv[:2]:
+                        v2 = dict(v)
+                        v2[(f"L{i}", "v_ctrl")] = [INF] * len(vs)
+                        outs2 = []
+                        for sp_, vals_ in ((sv, v2), (plain, v)):
+                            b_ = _build(sp_)
+                            ic_ = np_inputs(b_, vals_)
+                            for rep in range(2):
+                                if rep == 1:  # the caller lowers every density (equilibrium speeds rise), same control arrays
+                                    for el_, d_ in ic_.items():
+                                        if "rho" in d_:
+                                            d_["rho"] = d_["rho"] * 0.4
+                                b_.net.step(init_conditions=ic_, engine=env.numpy_engine(), **P)
+                            outs2.append(to_lists(read_next(b_)))
+                        st.inc("executions", 4)
+                        msg = same_all(outs2[1], outs2[0])
+                        if msg:
+                            report("C18/vsl-infinite-vs-plain/second-step-same-arrays/numpy",
+                                   f"{sv.short()}: second NumPy step from the same caller arrays, L{i} VSL {vs} with infinite limits vs "
+                                   f"plain: {msg} at {vl}", dict(case, pair="A2"))
+                        neg = {k_: ([-x for x in lst] if k_[1] in ("rho", "v") else list(lst)) for k_, lst in v.items()}
+                        neg2 = dict(neg)
+                        neg2[(f"L{i}", "v_ctrl")] = [INF] * len(vs)
+                        for opt in ("positive_init_speed", "positive_init_density"):
+                            a_ = np_step(sv, neg2, P, opts={opt: True})[0]
+                            b2_ = np_step(plain, neg, P, opts={opt: True})[0]
+                            st.inc("executions", 2)
+                            msg = same_all(b2_, a_)
+                            if msg:
+                                report(f"C18/vsl-infinite-vs-plain/{opt}/numpy", f"{sv.short()}: with {opt} on sign-flipped values, L{i} "
+                                       f"VSL {vs} with infinite limits vs plain: {msg} at {vl}", dict(case, pair="A3"))
                     # B: one finite limit
                     for si, seg in enumerate(vs):
                         for lim in LIMITS:
